@@ -135,8 +135,13 @@ def run_jobs(rep, jobs, known, concurrent=3, echo=True):
     early_n = {}
     rep.early_sigs = set()
 
+    early_seen = dict(paths=0, queries=0)
+    rep.early_seen = early_seen
+
     def watch(i, new):
         job = jobs[i]
+        early_seen['paths'] += len(new)
+        early_seen['queries'] += sum(r.get('nq', 0) for r in new)
         for r in new:
             if r.get('status') != 'ok' or not r.get('out'):
                 continue
@@ -175,6 +180,9 @@ def run_jobs(rep, jobs, known, concurrent=3, echo=True):
         if rep.violations:
             break
     if rep.violations and len(done) < len(jobs):
+        # what was explored before the run was stopped (jobs that did not complete included)
+        rep.totals['paths'] = max(rep.totals['paths'], early_seen['paths'], 1)
+        rep.totals['queries'] = max(rep.totals['queries'], early_seen['queries'], 1)
         rep.extra['stopped_at_first_confirmed_violation'] = True
         rep.extra['jobs_not_completed'] = [jobs[i].label for i in range(len(jobs)) if i not in done]
         for i in range(len(jobs)):
@@ -371,8 +379,11 @@ def finish(rep, level_text=''):
         wall_s=wall,
         violations=len(rep.violations),
     )
-    os.makedirs(os.path.join(VERIF, 'evidence'), exist_ok=True)
-    with open(os.path.join(VERIF, 'evidence', f'{rep.pid}.json'), 'w') as f:
+    # checks against a scratch copy (tools/mutate.py, seeds) write their evidence elsewhere: the
+    # committed evidence always describes a run against /repo itself
+    evdir = os.environ.get('SYMDD_EVIDENCE_DIR') or os.path.join(VERIF, 'evidence')
+    os.makedirs(evdir, exist_ok=True)
+    with open(os.path.join(evdir, f'{rep.pid}.json'), 'w') as f:
         json.dump(ev, f, indent=1, default=str)
     for key, what in rep.known_hits:
         print(f'KNOWN-FINDING: property={rep.pid} {key}: {what}')
